@@ -2,13 +2,13 @@
 GET /?follow streams held open across appends in two contexts)."""
 import json, os
 from . import common as C
-from . import storecheck, httpcheck
+from . import storecheck, httpcheck, servecheck
 
 
 def run(prop, tier, seed, replay=None):
     if replay:
         layer = json.load(open(replay)).get("layer")
-        return (httpcheck if layer == "http" else storecheck).run(prop, tier, seed, replay)
+        return (httpcheck if layer == "http" else servecheck if layer == "serve" else storecheck).run(prop, tier, seed, replay)
     rc1 = storecheck.run(prop, tier, seed)
     p = os.path.join(C.VERIF, "evidence", prop + ".json")
     ev1 = json.load(open(p))
@@ -23,5 +23,15 @@ def run(prop, tier, seed, replay=None):
     cov["http"] = {k: c2[k] for k in ("route_histogram", "status_histogram", "samples", "disagreements_checked")}
     ev1["wall_s"] = round(ev1["wall_s"] + ev2["wall_s"], 2)
     ev1["violations"] = ev1.get("violations", 0) + ev2.get("violations", 0)
+    rc3 = servecheck.run(prop, tier, seed)
+    ev3 = json.load(open(p))
+    c3 = ev3["coverage"]
+    cov["traces_validated_against_impl"] += c3["traces_validated_against_impl"]
+    cov["evaluations"] += c3["evaluations"]
+    cov["distinct_nontrivial"] += c3["distinct_nontrivial"]
+    cov["rule"] += " || serve loops (handlers, generators, commands in several contexts): " + c3["rule"]
+    cov["serve"] = {k: c3[k] for k in ("step_histogram", "findings_checked")}
+    ev1["wall_s"] = round(ev1["wall_s"] + ev3["wall_s"], 2)
+    ev1["violations"] = ev1.get("violations", 0) + ev3.get("violations", 0)
     json.dump(ev1, open(p, "w"), indent=1, sort_keys=True)
-    return 1 if (rc1 or rc2) else 0
+    return 1 if (rc1 or rc2 or rc3) else 0
